@@ -201,7 +201,10 @@ class CheckC14(core.Check):
                 elif v.kind == "unspec":
                     r.stats["unspecified_zone"] += 1
             for d in v.devs:
-                if mine and d.aspect in ("len", "res", "errkind", "panic"):
+                if mine and d.aspect == "res" and v.kind == "must_ok" and e.err and e.errkind() != "Input":
+                    # C14 does not demand that a fitting call succeeds; only a false "does not fit" (Input) is a framing error
+                    r.foreign_dev("C02", "valid %s failed with %s" % (d.op, e.errkind()))
+                elif mine and d.aspect in ("len", "res", "errkind", "panic"):
                     # a wrong Ok/Err, a wrong length, a wrong error kind or a panic at the boundary call
                     r.viol(
                         "C14|%s|%s|%s|%s" % (d.aspect, d.op, case.info["variant"], "%s@%s" % core.panic_sig(d.res) if d.aspect == "panic" else ""),
